@@ -31,6 +31,11 @@ type Case struct {
 	GOARCH    string     `json:"goarch"`
 	Tags      []string   `json:"tags"`
 	YaegiTags []string   `json:"yaegi_tags"`
+	// YaegiWhere: "" the tags are declared by an unconstrained file which sorts
+	// first; "rejected-go-build" / "rejected-plus-build": by a first file which its
+	// own constraint excludes, so that the tags are not added; "self": by a
+	// first file which requires the first of the tags it declares.
+	YaegiWhere string     `json:"yaegi_where,omitempty"`
 	Files     []FileSpec `json:"files"`
 	Test      bool       `json:"test"`
 }
@@ -296,6 +301,10 @@ func genCase(t *rapid.T) (*Case, []string) {
 	if rapid.IntRange(0, 3).Draw(t, "ytags") == 0 {
 		c.YaegiTags = rapid.SliceOfNDistinct(rapid.SampledFrom(customTags), 1, 2, rapid.ID[string]).Draw(t, "yaegitags")
 		labels = append(labels, "yaegi-tags")
+		c.YaegiWhere = []string{"", "", "rejected-go-build", "rejected-plus-build", "self"}[rapid.IntRange(0, 4).Draw(t, "ywhere")]
+		if c.YaegiWhere != "" {
+			labels = append(labels, "yaegi-tags-"+c.YaegiWhere)
+		}
 	}
 	c.Test = rapid.IntRange(0, 3).Draw(t, "testmode") == 0
 	if c.Test {
@@ -324,6 +333,21 @@ func (c *Case) tree() map[string]string {
 	base := "package pk\n"
 	if len(c.YaegiTags) > 0 {
 		base = "// yaegi:tags " + strings.Join(c.YaegiTags, " ") + "\n\npackage pk\n"
+		// a constrained carrier is a second file: the package keeps an
+		// unconstrained one
+		carrier := ""
+		switch c.YaegiWhere {
+		case "rejected-go-build":
+			carrier = "//go:build neverset\n\n" + base
+		case "rejected-plus-build":
+			carrier = "// +build neverset\n\n" + base
+		case "self":
+			carrier = "//go:build " + c.YaegiTags[0] + "\n\n" + base
+		}
+		if carrier != "" {
+			files[dir+"/a0tags.go"] = carrier
+			base = "package pk\n"
+		}
 	}
 	files[dir+"/a0base.go"] = base
 	for i, f := range c.Files {
@@ -333,12 +357,30 @@ func (c *Case) tree() map[string]string {
 	return files
 }
 
+// activeTags are Options.BuildTags plus the tags declared by the first file, if
+// that file takes part (the tags of an excluded file are not added).
+func (c *Case) activeTags() []string {
+	tags := append([]string{}, c.Tags...)
+	switch c.YaegiWhere {
+	case "rejected-go-build", "rejected-plus-build":
+		return tags
+	case "self":
+		for _, t := range c.Tags {
+			if t == c.YaegiTags[0] {
+				return append(tags, c.YaegiTags...)
+			}
+		}
+		return tags
+	}
+	return append(tags, c.YaegiTags...)
+}
+
 // expected computes the set of selected file indexes with go/build.
 func (c *Case) expected() []int {
 	files := c.tree()
 	ctx := build.Context{
 		GOOS: c.GOOS, GOARCH: c.GOARCH, Compiler: "gc",
-		BuildTags:   append(append([]string{}, c.Tags...), c.YaegiTags...),
+		BuildTags:   c.activeTags(),
 		ReleaseTags: build.Default.ReleaseTags,
 		OpenFile: func(p string) (io.ReadCloser, error) {
 			s, ok := files[p]
@@ -516,7 +558,7 @@ func init() {
 		Rule: "case = package directory of 1-5 files (name from stem + 0-3 words of {target OS/arch, known OS, known arch, unknown}, optional _test, _/. prefix, non-.go suffix; header from a boolean constraint grammar of depth<=4 rendered as // +build, //go:build, both consistent, both inconsistent, adjacent-to-package) x target platform (host or one of 16 via the verif build-context hook) x Options.BuildTags x yaegi:tags x Test/NoTest; oracle go/build.Context.MatchFile per file; non-trivial = a known OS/arch word in a deciding name position, or a header with >=2 operators, or both syntaxes present; distinct by full case content",
 		Assumptions: []string{
 			"go/build.Context.MatchFile of the installed toolchain (go1.23) is the reference; ReleaseTags are the host toolchain's",
-			"yaegi:tags lines are only placed in an unconstrained file that sorts first, so every other file sees them",
+			"yaegi:tags lines are placed in a file that sorts before the generated ones: unconstrained (every other file sees the tags), excluded by its own //go:build or // +build line (the tags are not added), or requiring its own first tag",
 			"tags cgo/gc/gccgo/goexperiment.* are outside the generator (not in the property's list)",
 		},
 		Cases:  map[string]int{"quick": 4000, "thorough": 300000},
